@@ -1164,7 +1164,16 @@ class GenFunctions(object):
         cvariants = {corder: node._function_index}
 
         context_args = {}
+        nargs = len(node.ast.params)
+        seen = set()
         for generic in node.fortran_generic:
+            # A function created for default arguments may have lost
+            # the arguments which distinguish the generic entries.
+            key = ", ".join(
+                [arg.gen_decl() for arg in generic.decls[:nargs]])
+            if key in seen:
+                continue
+            seen.add(key)
             new = node.clone()
             ordered_functions.append(new)
             self.append_function_index(new)
